@@ -2,7 +2,20 @@
 
 use std::sync::{Mutex as StdMutex, RwLock as StdRwLock};
 
+#[cfg(not(routinator_verif))]
 pub use std::sync::{MutexGuard, RwLockReadGuard, RwLockWriteGuard};
+
+/// Guards that report their release to the verification hooks.
+#[cfg(routinator_verif)]
+pub type MutexGuard<'a, T> = crate::verif::Guard<std::sync::MutexGuard<'a, T>>;
+#[cfg(routinator_verif)]
+pub type RwLockReadGuard<'a, T> = crate::verif::Guard<
+    std::sync::RwLockReadGuard<'a, T>
+>;
+#[cfg(routinator_verif)]
+pub type RwLockWriteGuard<'a, T> = crate::verif::Guard<
+    std::sync::RwLockWriteGuard<'a, T>
+>;
 
 
 //------------ RwLock --------------------------------------------------------
@@ -29,8 +42,18 @@ impl<T: ?Sized> RwLock<T> {
     /// The method panics if the lock is poisoned, i.e., if a writer panicked
     /// while holding the write lock. It may also panic if the current thread
     /// already holds the lock.
+    #[cfg(not(routinator_verif))]
     pub fn read(&self) -> RwLockReadGuard<'_, T> {
         self.0.read().expect("acquiring a poisoned rwlock")
+    }
+
+    /// Acquires the locks for shared read access, reporting to the hooks.
+    #[cfg(routinator_verif)]
+    pub fn read(&self) -> RwLockReadGuard<'_, T> {
+        crate::verif::Guard::acquire(
+            &self.0, crate::verif::LockMode::Read,
+            || self.0.read().expect("acquiring a poisoned rwlock")
+        )
     }
 
     /// Acquires the lock for exclusive write access.
@@ -43,8 +66,18 @@ impl<T: ?Sized> RwLock<T> {
     /// The method panics if the lock is poisoned, i.e., if a writer panicked
     /// while holding the write lock. It may also panic if the current thread
     /// already holds the lock.
+    #[cfg(not(routinator_verif))]
     pub fn write(&self) -> RwLockWriteGuard<'_, T> {
         self.0.write().expect("acquiring a poisoned rwlock")
+    }
+
+    /// Acquires the lock for exclusive write access, reporting to the hooks.
+    #[cfg(routinator_verif)]
+    pub fn write(&self) -> RwLockWriteGuard<'_, T> {
+        crate::verif::Guard::acquire(
+            &self.0, crate::verif::LockMode::Write,
+            || self.0.write().expect("acquiring a poisoned rwlock")
+        )
     }
 }
 
@@ -82,8 +115,18 @@ impl<T: ?Sized> Mutex<T> {
     /// The method panics if the lock is poisoned, i.e., if a panic occured
     /// while holding the lock. It may also panic if the current thread
     /// already holds the lock.
+    #[cfg(not(routinator_verif))]
     pub fn lock(&self) -> MutexGuard<'_, T> {
         self.0.lock().expect("acquiring a poisoned mutex")
+    }
+
+    /// Acquires the mutex, reporting to the hooks.
+    #[cfg(routinator_verif)]
+    pub fn lock(&self) -> MutexGuard<'_, T> {
+        crate::verif::Guard::acquire(
+            &self.0, crate::verif::LockMode::Mutex,
+            || self.0.lock().expect("acquiring a poisoned mutex")
+        )
     }
 }
 
